@@ -128,9 +128,19 @@ def canon_system(A, b, K, svid2col, variable_map, erows_hint=None):
 def snap(x, scale=1.0):
     """float -> exact Fraction string if it is (after division by `scale`) a small dyadic rational, else repr"""
     v = x / scale
+    if scale == 1.0 and v == v and abs(v) != float('inf'):
+        ex = F(v)
+        if ex.denominator <= 2 ** 40 and abs(ex.numerator) <= 2 ** 40:
+            return frac_str(ex)            # the float IS this dyadic rational (also the tiny 2^-30 coefficients the generator plants)
     q = F(v).limit_denominator(2 ** 20)
     if abs(float(q) - v) <= 1e-12 * max(1.0, abs(v)):
         return frac_str(q)
+    if v == v and abs(v) < 2.0 ** 20:
+        # a dyadic rational with a tiny part (the 2^-30 coefficients the generator plants) that went through a multiplication and a
+        # division by e: relative error ~1e-16, far below the 2^-41 spacing a generic float has from this grid
+        q2 = F(round(v * 2 ** 40), 2 ** 40)
+        if q2 != 0 and abs(float(q2) - v) <= 1e-14 * abs(v):
+            return frac_str(q2)
     return repr(v)
 
 
@@ -164,6 +174,8 @@ def atom_val(a, sigma):
         return abs(vals[0])
     if k == 'Pos':
         return max(vals[0], 0.0)
+    if k == 'Exponential' and vals[0] > 700:
+        return float('inf')
     if k == 'Exponential':
         return math.exp(vals[0])
     if k == 'RelEnt':
